@@ -247,8 +247,30 @@ fn small_lit() -> impl Strategy<Value = E> {
     (0i64..4).prop_map(E::Int)
 }
 
+/// an arithmetic operator / numeric built-in applied directly to the extreme-valued fields (the
+/// combinations named by the property: x + 1 at i64::MAX, i64::MIN / -1, abs(i64::MIN), ...)
+fn targeted() -> impl Strategy<Value = E> {
+    let operand = || {
+        prop_oneof![
+            6 => proptest::sample::select(vec!["fa", "fb"]).prop_map(E::id),
+            1 => Just(E::Neg(Box::new(E::Int(1)))),
+            2 => proptest::sample::select(vec![0i64, 1, 2, i64::MAX]).prop_map(E::Int),
+            1 => proptest::sample::select(vec![0.5f64, 1e300]).prop_map(|f| E::Float(F(f))),
+        ]
+    };
+    prop_oneof![
+        6 => (proptest::sample::select(Op::ARITH.to_vec()), operand(), operand()).prop_map(|(op, l, r)| E::bin(op, l, r)),
+        1 => operand().prop_map(|x| E::Neg(Box::new(x))),
+        2 => (proptest::sample::select(vec!["abs", "floor", "ceil", "round", "to_int", "sqrt", "to_string"]), operand()).prop_map(|(n, x)| E::call(n, vec![x])),
+        2 => (proptest::sample::select(vec!["pow", "min", "max", "get", "substring"]), operand(), operand()).prop_map(|(n, x, y)| E::call(n, vec![x, y])),
+        1 => (operand(), operand()).prop_map(|(i, j)| E::Slice(Box::new(E::id("fc")), Some(Box::new(i)), Some(Box::new(j)))),
+        1 => operand().prop_map(|i| E::Idx(Box::new(E::id("fc")), Box::new(i))),
+    ]
+}
+
 fn leaf() -> impl Strategy<Value = E> {
     prop_oneof![
+        8 => targeted(),
         5 => proptest::sample::select(vec![0i64, 1, 2, 3, 7, 31, 32, 63, 64, 65, 1 << 31, 1 << 32, (1 << 53) + 1, i64::MAX - 1, i64::MAX]).prop_map(E::Int),
         2 => proptest::sample::select(vec![0.0f64, 0.5, 1.0, 2.0, 1e300, 1e-9, 9.3e18, 1.7e308]).prop_map(|f| E::Float(F(f))),
         1 => proptest::sample::select(vec!["", "a", "ab", "1", "é", "日本", ","]).prop_map(|s| E::Str(s.to_string())),
@@ -290,6 +312,7 @@ fn expr() -> impl Strategy<Value = E> {
 
 fn extreme_scalar() -> impl Strategy<Value = V> {
     prop_oneof![
+        6 => proptest::sample::select(vec![i64::MIN, i64::MAX, -1, 0, 1]).prop_map(V::Int),
         4 => proptest::sample::select(vec![i64::MIN, i64::MIN + 1, i64::MAX, i64::MAX - 1, -1, 0, 1, 2, 1 << 62, -(1 << 62), 1 << 31, (1 << 32) + 1, 3037000500, -3037000500]).prop_map(V::Int),
         3 => proptest::sample::select(vec![f64::NAN, f64::INFINITY, f64::NEG_INFINITY, f64::MAX, f64::MIN, 1e300, -1e300, 9.3e18, -9.3e18, -0.0, 0.0, f64::MIN_POSITIVE, 0.5]).prop_map(V::f),
         2 => vh_gen::any_string().prop_map(V::Str),
